@@ -7,6 +7,7 @@ CONSTANTS
   FixMid = TRUE
   Tasks = {"uniq", "fptr"}
   DbInputs <- MCDbInputs
+  StageInputs <- MCStageInputs
 INVARIANT NoAbort
 INVARIANT StepBound
 INVARIANT UniqExact
